@@ -1,4 +1,5 @@
 import SpoxModel.Model.OpsetQualify
+import SpoxModel.Model.OpsetInits
 /-!
 # Lemmas about the renaming step of `adapt_node` (C09)
 -/
@@ -155,3 +156,10 @@ theorem qualified_nodup (cs : List (Nm × List Nm))
       exact hp.1 (List.mem_map.mpr ⟨c', hc', this⟩)
 
 end Opset.Qualify
+
+namespace Opset.Inits
+
+theorem mem_movable (g : IGraph) (n : Nm) : n ∈ movable g ↔ n ∈ g.inits ∧ n ∉ g.inputs := by
+  simp [movable, List.mem_filter]
+
+end Opset.Inits
